@@ -18,7 +18,7 @@ Print Assumptions C16_views_are_subslices.
 (* The offsets are the decoded ones: wherever Parse and the reference decoder are proved equal (outside the
    classes recorded for C02) the views sit at the offsets the reference decoder computes. *)
 Theorem C16_views_at_decoded_offsets : forall c s f,
-  wf s -> bytes_ok (view s) -> N.of_nat (len s) < 65536 -> known_C02 (view s) = None -> parse c s = Ok f ->
+  wf s -> bytes_ok (view s) -> N.of_nat (len s) < 65536 -> known_C02 (c_fx c) (view s) = None -> parse c s = Ok f ->
   exists r, ref_decode (view s) = ROk r /\
     r_ip4 r = opt_off (view_off f V4) /\ r_ip6 r = opt_off (view_off f V6) /\
     r_udp r = opt_off (view_off f VU) /\ r_tcp r = opt_off (view_off f VT) /\ r_pay r = view_off f VP.
